@@ -6,7 +6,9 @@
    BC <tok -|r> <btdb>        -> some <btdb> | none          (bt_complete (len+3))
    BI <btdb>                  -> <wf_old> <no_empty_range> <get_first>
    BP <refbtdb> <btdb>        -> t|f                          (preserved (map content ref) db)
-   AD <events chronological, ','-separated or ->  -> t|f       (applied_after_done) *)
+   AD <events chronological, ','-separated or ->  -> t|f       (applied_after_done)
+   SD <checkpoint> <sdb>      -> some <sdb> | none            (sdl_migrate)   sdb: blocks ','-separated,
+                                                              '-' = pruned, len:sdl otherwise *)
 let ios = int_of_string
 let soi = string_of_int
 let split c s = if s = "-" || s = "" then [] else String.split_on_char c s
@@ -123,6 +125,14 @@ let () =
       | "BP" -> (match words rest with
           | [r; db] -> tf (preserved (List.map content (parse_db r)) (parse_db db))
           | _ -> failwith "BP")
+      | "SD" -> (match words rest with
+          | [ck; db] ->
+            let parse b = if b = "-" then None else match String.split_on_char ':' b with
+              | [l; d] -> Some { s_len = n_of_int (ios l); s_sdl = n_of_int (ios d) } | _ -> failwith "sblock" in
+            let show = function None -> "-" | Some b -> soi (int_of_n b.s_len) ^ ":" ^ soi (int_of_n b.s_sdl) in
+            (match sdl_migrate (nat_of_int (ios ck)) (List.map parse (String.split_on_char ',' db)) with
+             | Some d -> "some " ^ String.concat "," (List.map show d) | None -> "none")
+          | _ -> failwith "SD")
       | "AD" ->
           let evs = List.map parse_event (split ',' (String.trim rest)) in
           tf (applied_after_done (List.rev evs))
